@@ -13,9 +13,12 @@ structure CodecFlags where
   gtTotal : Bool := false
   /-- wallet.rs: `Wallet::deserialize_from_disk` checks the 65-byte length -/
   walletTotal : Bool := false
+  /-- message.rs: `Message::deserialize` checks the extent of a tag-10 payload before handing it to
+      `GhostChainSync::deserialize` (the decoder itself may stay unchecked) -/
+  msgGhostChecked : Bool := false
   deriving Repr, DecidableEq
 
 def CodecFlags.pinned : CodecFlags := {}
-def CodecFlags.fixed : CodecFlags := ⟨true, true, true, true⟩
+def CodecFlags.fixed : CodecFlags := ⟨true, true, true, true, true⟩
 
 end Saito
